@@ -236,7 +236,9 @@ pub fn run(rep: &mut Report, thorough: bool) {
                 // clear) equal to the stream length / to 5, and URG set with pointer 3
                 scen.push((si, c.clone(), None, 1000, 3));
                 scen.push((si, c.clone(), None, 1000, 4));
-                scen.push((si, c, None, 1000, 5));
+                scen.push((si, c.clone(), None, 1000, 5));
+                // a client that closes right after its last write: FIN on the last data segment
+                scen.push((si, c, None, 1000, 6));
             }
         }
     }
@@ -247,14 +249,21 @@ pub fn run(rep: &mut Report, thorough: bool) {
         &opts,
         |i| {
             let (si, cuts, empty_at, base, pad) = &scen[i as usize];
-            segments(&f, ack, &ss[*si].1, cuts, *empty_at, *base)
+            let mut frames = segments(&f, ack, &ss[*si].1, cuts, *empty_at, *base);
+            if *pad == 6 {
+                if let Some(last) = frames.last_mut() {
+                    last[34 + 13] |= 0x01;
+                    refresh_checksums(last);
+                }
+            }
+            frames
                 .into_iter()
                 .map(|mut fr| {
                     if *pad == 1 && fr.len() < 60 {
                         fr.resize(60, 0);
                     } else if *pad == 2 {
                         fr.extend_from_slice(&[0xff; 7]);
-                    } else if *pad >= 3 {
+                    } else if *pad >= 3 && *pad <= 5 {
                         // flow `f` is IPv4 without options: the TCP header starts at byte 34
                         let u: u16 = match *pad {
                             3 => ss[*si].1.len() as u16,
@@ -332,7 +341,7 @@ pub fn run(rep: &mut Report, thorough: bool) {
         &mut rep.sink,
     );
     rep.transitions += scen.len() as u64;
-    rep.stage("compositions", "streams x (every 1-cut [x zero-length insertion], every 2-cut of the selected streams, every 1-cut again in frames zero-padded to 60 bytes / followed by a 7-byte trailer / with a stale urgent-pointer field (stream length, 5) / with URG and pointer 3, every 1-cut again with sequence numbers wrapping past 2^32 inside the request)", scen.len() as u64, t0);
+    rep.stage("compositions", "streams x (every 1-cut [x zero-length insertion], every 2-cut of the selected streams, every 1-cut again in frames zero-padded to 60 bytes / followed by a 7-byte trailer / with a stale urgent-pointer field (stream length, 5) / with URG and pointer 3 / with FIN on the last segment, every 1-cut again with sequence numbers wrapping past 2^32 inside the request)", scen.len() as u64, t0);
     parser_bfs(rep, &cfg, &f, ack, &cookies, thorough);
 }
 
